@@ -82,6 +82,10 @@ func c20(r *core.Run) {
 	c.mut = e.w.NewProc("admin", memfs.Cred{})
 	useDefault := src.Bool(1, 3)
 	r.Knob("default_cache", useDefault)
+	if src.Bool(1, 6) {
+		e.w.FS.MaxQueuedEvents = 3 + src.Intn(10) // event loss by queue overflow
+		r.Knob("max_queued_events", e.w.FS.MaxQueuedEvents)
+	}
 	pool := []string{"/etc/cdi", "/var/run/cdi", "/opt/vendor/cdi", "/usr/local/etc/cdi"}
 	// all pool directories are candidates for the mutators: changes hit former, current and future directories
 	c.dirs = pool
